@@ -376,6 +376,9 @@ def _child(case, cdir):
     try:
         import singlecellmultiomics.universalBamTagger.bamtagmultiome as tm
         install(None, cdir, case['out'], snapshots=case.get('snapshots', True))
+        if case.get('prerun_argv'):     # an earlier call in the SAME process on another input, writing to the same output path
+            arm(None, 'prerun')
+            tm.run_multiome_tagging_cmd(list(case['prerun_argv']))
         if case.get('prerun'):          # a complete earlier run of the same command leaves output, index and status on disk
             arm(None, 'prerun')
             tm.run_multiome_tagging_cmd(list(case['argv']))
